@@ -183,6 +183,7 @@ func (q *Queue) Read(pids []packets.PacketID) (rs []*queue.Elem, err error) {
 	}
 	for (q.l.Len() == 0 || q.current == nil) && !q.closed {
 		q.cond.Wait()
+		now = time.Now()
 	}
 	if q.closed {
 		return nil, queue.ErrClosed
